@@ -142,3 +142,110 @@ for _p, _tech, _ql, _tl, _cls, _cq in [
                      stages=[e3_stage(_p, _ql, _tl, _cq, CFG_T, classes=_cls)])
 
 ENGINES["crash"] = "E3: crash-point x crash-image enumerator over the journal of the in-memory VFS; recovery by the real ldb_open"
+
+E5_ASSUME = [
+    "single-threaded calls into lcdb's real encoder/decoder entry points (no scheduler); files, where needed, on the in-memory VFS",
+    "reference codecs (harness/ref_codecs.c, harness/rm_manifest.c) were written from the public LevelDB format descriptions and include no lcdb header",
+    "asan flavour: AddressSanitizer errors and the UBSan kinds signed-integer-overflow, shift-exponent, integer-divide-by-zero, bounds, pointer-overflow are fatal and attributed to the announced case",
+]
+
+PROPS["C15"] = dict(
+    level="exploration",
+    technique="exhaustive enumeration of declared record-length/offset boxes, every truncation offset and every byte x alteration, real log writer/reader vs an independent LevelDB log codec and a bitwise CRC-32C",
+    rule="nested loops over: CRC lengths 0..4096 x alignments 0..15 x 3 fills (before and after crc32c_init); single records of every length 0..98320 at 33 start offsets; every start offset 0..32767 for 6 lengths; all sequences of <=4 records over 20 boundary lengths; every cut offset of 12 files; every byte offset x 6 alterations (quick: boundary subsets, listed in the run's NOTE); distinct = distinct (records returned, drops reported) read outcomes",
+    distinct_key="read_outcomes", assumptions=E5_ASSUME,
+    stages=[dict(name="log", driver="c15_log", flavour="asan")],
+)
+PROPS["C16"] = dict(
+    level="exploration",
+    technique="exhaustive enumeration of entry sets x option grid through the real table builder/reader, compared with an independent SSTable reader; separator/successor contract and Snappy round trips over complete short-string universes",
+    rule="all 1023 non-empty sorted subsets of a 10-internal-key universe x 2 value patterns x 576 configurations (block size, restart interval, compression, filter bits, comparator, mmap, cache) (quick: a boundary subset); per table iteration both ways, 42 seek/lookup targets, filter probes, reference decode of the bytes; all ordered pairs of strings <=3 over {00,01,61,FE,FF} for the separator contract; Snappy strings <=20 over {a,b}, <=12 over {a,b,c}, periodic patterns up to 70000 bytes; distinct = distinct table layouts (blocks, filter, compression)",
+    distinct_key="table_layouts", assumptions=E5_ASSUME,
+    stages=[dict(name="table", driver="c16_table", flavour="asan")],
+)
+PROPS["C17"] = dict(
+    level="exploration",
+    technique="exhaustive enumeration of a version-edit field grid and of all 2^32 varint32 values through the real encoder/decoder vs an independent MANIFEST codec; plus crash-point x crash-image enumeration of MANIFEST/CURRENT switches recovered by the real ldb_open",
+    rule="edit grid: 32 scalar-field masks x 25 boundary values x comparator shapes; 7 levels x 8 key shapes x file counts {0,1,3,2000} x compact pointers; level >= 7 rejection; every proper prefix of encoded edits; all byte strings <=2 (quick) / <=3 (thorough) differentially; varint32: all values < 2^21 plus windows around 2^7k (quick), all 2^32 (thorough); crash stage: every journal index of histories with reopen (new MANIFEST + CURRENT switch, reuse_logs appends) x image classes; distinct = distinct encoded-edit length classes",
+    distinct_key="edit_len_class", assumptions=E5_ASSUME + E3_ASSUME,
+    stages=[dict(name="edit", driver="c17_edit", flavour="asan"),
+            e3_stage("C17", 2, 3, "B1;B1,reuse=1", CFG_T, classes=0x7f)],
+)
+PROPS["C18"] = dict(
+    level="exploration",
+    technique="exhaustive enumeration of all short byte strings and of single/double boundary-value substitutions, truncations and splices of valid seeds through 15 real decoder entry points under ASan+UBSan with step caps",
+    rule="per entry point (block iterator x2, footer x2, handle, filter, snappy, edit, batch x2, log reader x3, parsed key, file name): all byte strings of length <=2 (quick) / <=3 (thorough), all strings <=6 over {00,01,07,7F,80,FF}, 65 valid seeds x every offset x 10 boundary values, every truncation, double substitutions, splices (thorough); oracle: returns, no sanitizer report, step cap not exceeded; distinct = distinct decoder outcomes per entry point",
+    assumptions=E5_ASSUME + ["whole-database operations on mutated directories are covered by C11's stage, not here"],
+    stages=[dict(name="decoders", driver="c18_decoders", flavour="asan")],
+)
+ENGINES.update({
+    "c15_log": "E5: exhaustive log-format input enumeration vs independent codec",
+    "c16_table": "E5: exhaustive table/snappy/separator input enumeration vs independent reader",
+    "c17_edit": "E5: exhaustive version-edit/varint enumeration vs independent MANIFEST codec",
+    "c18_decoders": "E5: exhaustive short-input and seed-mutation enumeration of decoder entry points under sanitizers",
+    "mc": "E1: stateless schedule exploration with deviation bounding on the fiber scheduler; linearizability / deadlock / race oracles",
+})
+
+E1_ASSUME = [
+    "lcdb's threads (foreground bodies and its own background thread) run as fibers; a switch happens only at a scheduling point: before every mutex acquisition, at every blocking wait/exit/join, after thread creation, at the hooked unlocked flag loads of the compaction loop (H3), at sleeps, and (io=1) before every journalled system call",
+    "executions are sequentially consistent; condition variables wake only on signal/broadcast (the adversary that exposes a lost wake-up); with spurious=1 a single spurious wake-up is an additional deviation",
+    "coverage statement: ALL schedules that differ from either of two deterministic base schedulers (lowest-id-first, background-thread-first) by at most `bound` deviations (preemptions or non-default hand-overs), for each listed closed scenario of 2-4 foreground threads with 1-4 operations each on 2 colliding keys",
+    "states = executions (each a distinct complete schedule of the implementation), transitions = scheduling points executed",
+]
+
+MC_ALL = "D1,D1f,D2,D2b,D3,D4,D5,D6,D8,D9,D10,D11"
+
+PROPS["C08"] = dict(
+    level="model_checking",
+    technique="stateless schedule exploration of the real code under a controlled fiber scheduler with iterative deviation (preemption) bounding; brute-force linearizability check of every execution against a sorted-map model",
+    rule="for each scenario every schedule within the deviation bound is executed on a fresh copy of the scenario's initial image; oracle: a total order of the <=12 recorded operations exists that respects real time and explains every get, snapshot read, iterator scan and the final state; distinct = distinct result vectors",
+    distinct_key="outcomes", assumptions=E1_ASSUME,
+    stages=[dict(name="mc", driver="mc", flavour="asan", args=["--prop", "C08"],
+                 quick=["--scenarios", "D1,D1f,D2,D2b,D3,D4,D5,D6,D10,D11", "--bound", "2"],
+                 thorough=["--scenarios", "D1,D1f,D2,D2b,D4,D5,D6,D10,D11,D3", "--bound", "3"]),
+            dict(name="mc-io", driver="mc", flavour="asan", args=["--prop", "C08", "--io", "1"], tiers=["thorough"],
+                 thorough=["--scenarios", "D1,D1f,D2,D4,D11", "--bound", "2"])],
+)
+PROPS["C09"] = dict(
+    level="model_checking",
+    technique="stateless schedule exploration with deviation bounding; oracle: the scheduler never reaches 'unfinished threads, none enabled' (deadlock / lost wake-up) and no execution exceeds the step limit, incl. close racing background work and a spurious-wake-up deviation",
+    rule="as C08 over all scenarios incl. stalled writers (D6), close racing compaction (D8), concurrent manual compactions (D9); every API call must return in every explored schedule; distinct = distinct result vectors",
+    distinct_key="outcomes", assumptions=E1_ASSUME,
+    stages=[dict(name="mc", driver="mc", flavour="asan", args=["--prop", "C09"],
+                 quick=["--scenarios", MC_ALL, "--bound", "2"], thorough=["--scenarios", MC_ALL, "--bound", "3"]),
+            dict(name="mc-spurious", driver="mc", flavour="asan", args=["--prop", "C09", "--spurious", "1"],
+                 quick=["--scenarios", "D1f,D6,D8,D9", "--bound", "1"], thorough=["--scenarios", MC_ALL, "--bound", "2"])],
+)
+PROPS["C10"] = dict(
+    level="model_checking",
+    technique="stateless schedule exploration with deviation bounding under ThreadSanitizer (fiber API, no synchronisation implied by a switch; modelled mutexes announced as acquire/release) and under AddressSanitizer: a happens-before race oracle evaluated on every explored interleaving",
+    rule="as C09; oracle: zero ThreadSanitizer reports (halt on first) and zero AddressSanitizer reports in every explored schedule of every scenario; distinct = distinct result vectors",
+    distinct_key="outcomes",
+    assumptions=E1_ASSUME + ["TSan keeps a bounded per-location access history: a race whose two accesses are separated by very many accesses to the same cell can be missed within one execution", "the harness' own bookkeeping (scheduler, VFS) is excluded from race detection by construction (uninstrumented TUs + ignore scopes)"],
+    stages=[dict(name="mc-tsan", driver="mc", flavour="tsan", args=["--prop", "C10"],
+                 quick=["--scenarios", MC_ALL, "--bound", "1"], thorough=["--scenarios", MC_ALL, "--bound", "2"]),
+            dict(name="mc-asan", driver="mc", flavour="asan", args=["--prop", "C10"],
+                 quick=["--scenarios", "D3,D8,D11", "--bound", "2"], thorough=["--scenarios", MC_ALL, "--bound", "2", "--io", "1"])],
+)
+PROPS["C04"] = dict(
+    level="model_checking",
+    technique="(a) crash-point x crash-image enumeration with cuts inside every log fragment, marker keys make a half-applied batch visible; (b) stateless schedule exploration of group commit vs snapshot/iterator readers with a linearizability oracle over multi-key batches",
+    rule="(a) histories with 1/2/3-update batches (thorough: a 700-update batch over 4 log blocks) x every journal index x {max, torn cuts} images: recovered contents = fold of whole batches; (b) scenarios D2, D2b, D3: every schedule within the bound: every snapshot read / scan sees both keys of a batch or neither; distinct = distinct outcomes",
+    distinct_key="outcomes", assumptions=E3_ASSUME + E1_ASSUME,
+    stages=[e3_stage("C04", 2, 3, "B1", "B1;B1,snappy=1;B1,reuse=1", classes=0x22),
+            dict(name="mc", driver="mc", flavour="asan", args=["--prop", "C04"],
+                 quick=["--scenarios", "D2,D2b,D3", "--bound", "2"], thorough=["--scenarios", "D2,D2b,D3", "--bound", "3"])],
+)
+PROPS["C12"] = dict(
+    level="fault_enumeration",
+    technique="fault-site enumeration: every intercepted system call of a recorded run x every errno the property names x {one-shot, persistent} x short transfers, re-run on the real code; then close+reopen and kill+reopen after the fault cleared",
+    rule="histories up to the given length over {put, put-sync, put-1KiB, batch, flush, compact-all, reopen} + 4 scripted ones (log rotation, multi-level compaction, recovery in the middle) x every call index of kinds open/write/fsync/rename/unlink/close/mkdir/link/read/lseek/mmap x {ENOSPC, EIO, EMFILE, ENOENT, ENOMEM as meaningful} x paranoid {0,1}; distinct = distinct (op statuses, reopen status, recovered contents) outcomes",
+    distinct_key="outcomes",
+    assumptions=["fault model: the k-th intercepted call fails with the errno (one-shot) or it and every later call of the same kind fail (persistent); a short write/read transfers 0/1/len-1 bytes and the next call of that kind fails", "metadata probes (access, stat, fstat, fcntl, opendir) are not fault sites: C12 does not list them"] + E3_ASSUME[2:],
+    stages=[dict(name="fault", driver="fault", flavour="asan",
+                 quick=["--cfgs", "B1;B1,reuse=1", "--len", "2", "--scripted", "1"],
+                 thorough=["--cfgs", "B1;B1,reuse=1;B1,snappy=1,mmap=0", "--len", "3", "--scripted", "1", "--persistent", "1"]),
+            dict(name="fault2", driver="fault", flavour="asan", tiers=["thorough"],
+                 thorough=["--cfgs", "B1", "--len", "1", "--scripted", "0", "--depth2", "1"])],
+)
+ENGINES["fault"] = "E4: fault-site enumerator over the call log of the in-memory VFS"
